@@ -26,7 +26,13 @@ async fn epmd_conn(mut s: TcpStream) {
         120 => {
             // ALIVE2_REQ -> ALIVE2_X_RESP, result 0, creation
             let mut resp = vec![118u8, 0];
-            resp.extend_from_slice(&CREATION.to_be_bytes());
+            // a node named verifc<N> is given creation N (late-start scripts), every other node CREATION
+            let creation = (req.len() > 11)
+                .then(|| String::from_utf8_lossy(&req[11..]).to_string())
+                .and_then(|n| n.strip_prefix("verifc").map(|r| r.chars().take_while(|c| c.is_ascii_digit()).collect::<String>()))
+                .and_then(|d| d.parse::<u32>().ok())
+                .unwrap_or(CREATION);
+            resp.extend_from_slice(&creation.to_be_bytes());
             let _ = s.write_all(&resp).await;
             let _ = s.flush().await;
             // a registration lives as long as its connection
@@ -627,7 +633,74 @@ async fn run_script(connect: bool, early: Vec<u8>, steps: Vec<String>) -> String
 }
 
 /// `node <0|1 connect> ;; step ;; step ...`
+/// `nodemix <creation> a|s ...`: a node that connects and makes remote calls (`a`: one call, which times out — the peer
+/// never answers) before and after it is started (`s`: Node::start, the port mapper hands out <creation>).  Output: the
+/// reply identifiers of the calls as the peer saw them, `id.serial.creation` each, in call order.
+async fn run_nodemix(creation: u32, ops: Vec<String>) -> String {
+    let mut node = Node::new(format!("verifc{creation}@127.0.0.1"), COOKIE);
+    let listener = TcpListener::bind("127.0.0.1:0").await.expect("bind peer");
+    let port = listener.local_addr().unwrap().port();
+    let remote = format!("p{port}@127.0.0.1");
+    let remote2 = remote.clone();
+    let acc = tokio::spawn(async move {
+        let (mut s, _) = listener.accept().await.expect("accept");
+        peer_handshake(&mut s, crate::conn_flags(), &remote2, &[]).await.map(|_| s)
+    });
+    if let Err(e) = node.connect(remote.clone()).await {
+        return format!("connect-err {e}");
+    }
+    let Ok(Ok(s)) = acc.await else { return "peer-handshake-failed".to_string() };
+    let (mut rd, wr) = s.into_split();
+    let got = Arc::new(Mutex::new(Vec::new()));
+    let got2 = got.clone();
+    tokio::spawn(async move {
+        let mut buf = vec![0u8; 65536];
+        loop {
+            match rd.read(&mut buf).await {
+                Ok(0) | Err(_) => break,
+                Ok(n) => got2.lock().unwrap().extend_from_slice(&buf[..n]),
+            }
+        }
+    });
+    let peer = Peer { wr, got };
+    let mut n_calls = 0usize;
+    for op in &ops {
+        match op.as_str() {
+            "a" => {
+                let _ = node.rpc_call_raw_with_timeout(&remote, "m", "f", vec![], Duration::from_millis(40)).await;
+                n_calls += 1;
+            }
+            "s" => {
+                if let Err(e) = node.start(0).await {
+                    return format!("start-err {e}");
+                }
+            }
+            other => panic!("bad nodemix op {other}"),
+        }
+    }
+    let mut out = Vec::new();
+    for i in 0..n_calls {
+        match reply_pid(&peer, i).await {
+            Some(p) => out.push(format!("{}.{}.{}", p.id, p.serial, p.creation)),
+            None => out.push("none".to_string()),
+        }
+    }
+    out.join(" ")
+}
+
 pub fn run_case(line: &str) -> String {
+    if let Some(rest) = line.strip_prefix("nodemix ") {
+        let mut w = rest.split_whitespace();
+        let creation: u32 = w.next().expect("creation").parse().expect("creation");
+        let ops: Vec<String> = w.map(|s| s.to_string()).collect();
+        ensure_epmd();
+        let r = runtime().block_on(run_nodemix(creation, ops.clone()));
+        if r.starts_with("start-err") || r.starts_with("connect-err") {
+            ensure_epmd();
+            return runtime().block_on(run_nodemix(creation, ops));
+        }
+        return r;
+    }
     let mut parts = line.split(" ;; ");
     let head = parts.next().expect("head");
     let mut t = Toks::new(head);
